@@ -386,6 +386,49 @@ Section Munch.
           destruct x as [|? ?]; [|cbn [length] in E; lia]. subst y. cbn. split; reflexivity.
   Qed.
 
+  (* the invariant along the loops of the code *)
+  Lemma decode_byte_Inv (s s' : st) b o :
+    Tokenizer.decode_byte Q Item q0 delta accepting terminal decode_item s b = (s', o) -> Inv s -> Inv s'.
+  Proof.
+    intros H HI. rewrite <- (set_res_eta Q Item s) in H.
+    rewrite (decode_byte_param Q Item q0 delta accepting terminal decode_item) in H.
+    destruct (cstep s b) as [[c o1] p] eqn:Hc. inversion H; subst.
+    apply Inv_set_res. apply (cstep_inv _ _ _ _ _ Hc HI).
+  Qed.
+
+  Lemma drain_Inv fuel : forall (s s' : st) o,
+    Tokenizer.drain Q Item q0 delta accepting terminal decode_item fuel s = Ok (s', o) -> Inv s -> Inv s'.
+  Proof.
+    induction fuel as [|f IH]; intros s s' o H HI; [discriminate|].
+    cbn [Tokenizer.drain] in H. destruct (sres s) as [|b r].
+    - inversion H; subst. exact HI.
+    - destruct (Tokenizer.decode_byte Q Item q0 delta accepting terminal decode_item (set_res s r) b) as [s1 o1] eqn:Hb.
+      pose proof (decode_byte_Inv _ _ _ _ Hb (proj2 (Inv_set_res s r) HI)) as H1.
+      destruct o1; [inversion H; subst; exact H1|apply (IH _ _ _ H H1)].
+  Qed.
+
+  Lemma scan_Inv input : forall (s s' : st) o rest,
+    Tokenizer.scan_input Q Item q0 delta accepting terminal decode_item s input = (s', o, rest) -> Inv s -> Inv s'.
+  Proof.
+    induction input as [|b r IH]; intros s s' o rest H HI.
+    - cbn in H. inversion H; subst. exact HI.
+    - cbn [Tokenizer.scan_input] in H.
+      destruct (Tokenizer.decode_byte Q Item q0 delta accepting terminal decode_item s b) as [s1 o1] eqn:Hb.
+      pose proof (decode_byte_Inv _ _ _ _ Hb HI) as H1.
+      destruct o1; [inversion H; subst; exact H1|apply (IH _ _ _ _ H H1)].
+  Qed.
+
+  Lemma decode_Inv (s s' : st) input o rest :
+    Tokenizer.decode Q Item q0 delta accepting terminal decode_item s input = Ok (s', o, rest) -> Inv s -> Inv s'.
+  Proof.
+    unfold Tokenizer.decode.
+    destruct (Tokenizer.drain Q Item q0 delta accepting terminal decode_item (S (length (sres s))) s)
+      as [[s1 o1]| | |] eqn:Hd; cbn [bind]; try discriminate.
+    intros H HI. pose proof (drain_Inv _ _ _ _ Hd HI) as H1.
+    destruct o1; [inversion H; subst; exact H1|].
+    inversion H as [Hs]. apply (scan_Inv _ _ _ _ _ Hs H1).
+  Qed.
+
   (* ---------------------------------------------------------------- *)
   (* the stream view computes Munch *)
 
